@@ -7,10 +7,13 @@ import (
 	"io"
 	"mime"
 	"mime/multipart"
+	"net"
 	"net/http"
+	"os"
 	"sort"
 	"strings"
 	"sync"
+	"syscall"
 
 	"verif/gqlref"
 
@@ -172,6 +175,15 @@ func (f *Fakes) RoundTrip(r *http.Request) (*http.Response, error) {
 			f.FaultsApplied++
 			f.record(svc, call, reqs, multi, files, false)
 			return nil, fmt.Errorf("injected transport error")
+		case "transport-eof":
+			// the connection broke after the service received (and logged) the call
+			f.FaultsApplied++
+			f.record(svc, call, reqs, multi, files, true)
+			return nil, fmt.Errorf("read tcp: %w", io.EOF)
+		case "transport-reset":
+			f.FaultsApplied++
+			f.record(svc, call, reqs, multi, files, true)
+			return nil, &net.OpError{Op: "read", Net: "tcp", Err: os.NewSyscallError("read", syscall.ECONNRESET)}
 		case "status500":
 			f.FaultsApplied++
 			f.record(svc, call, reqs, multi, files, false)
@@ -211,6 +223,18 @@ func (f *Fakes) RoundTrip(r *http.Request) (*http.Response, error) {
 		}
 	} else {
 		b, _ = json.Marshal(out)
+	}
+	if fault != nil {
+		switch fault.Kind {
+		case "trailing-garbage":
+			// a complete, well-formed answer followed by bytes that make the body as a whole not JSON
+			f.FaultsApplied++
+			b = append(b, []byte(` trailing garbage <`)...)
+		case "glued":
+			// two replies glued together
+			f.FaultsApplied++
+			b = append(append([]byte{}, b...), b...)
+		}
 	}
 	return httpResp(200, b), nil
 }
@@ -440,6 +464,18 @@ func applyFault(out []interface{}, ft *Fault) ([]interface{}, bool) {
 	case "nodata":
 		if m := el(); m != nil {
 			out[pos] = map[string]interface{}{}
+			applied = true
+		}
+	case "errors-empty-datanull":
+		// data missing and an errors key that carries nothing
+		if m := el(); m != nil {
+			out[pos] = map[string]interface{}{"data": nil, "errors": []interface{}{}}
+			applied = true
+		}
+	case "errors-empty-ok":
+		// a healthy answer that spells out its empty errors list
+		if m := el(); m != nil {
+			out[pos] = map[string]interface{}{"data": m["data"], "errors": []interface{}{}}
 			applied = true
 		}
 	case "entry-scalar", "entry-null", "obj-scalar", "list-object", "no-id", "foreign-id", "field-null", "obj-list", "obj-empty-list", "list-null":
